@@ -51,7 +51,7 @@ MDNS = vsim.MDNS_ADDR
 
 CFG = dict(ann=[350, 575, 800], upd=[0, 225, 450], bye=[0, 125, 250], maxDelay=100, qLo=20, qHi=120,
            qOff=[0, 1000, 5000, 14000], dupQ=999, respBefore=1000, respAfter=1200, regDelay=350,
-           ptrMinTtl=1125, cleanup=10000, refresh1=750, refresh2=850, refreshEarly=10000, refreshWin=25000)
+           ptrMinTtl=1125, cleanup=10000, refresh1=750, refresh2=850, refreshEarly=10000, refreshWin=30000)
 
 
 # ------------------------------------------------------------------------------------------
@@ -114,6 +114,11 @@ def gen_late_browser_family(rng):
     if rng.random() < 0.3:
         ops.append([rng.randint(3000, 20000), "update", 0] + ([{"other_ttl": rng.choice(PTR_TTLS)}] if rng.random() < 0.5 else []))
     m = rng.choice([1, 5, 10, 30, 37, 38, 40, 45, 50, 56, 57, 60, 65, 70, 74, 75, 76, 80]) * minute + rng.choice([0, 1, rng.randint(0, minute)])
+    if rng.random() < 0.25:
+        # around the 75 % point of the default TTL (announcements at ~0.35-0.8 s + 3375 s): the browser starts after it, or so
+        # shortly before it that the 75 % point falls into its start-up phase (K3b's start-up branch: the boundary is 24.12 s)
+        m = 3375000 + rng.choice([-40000, -30000, -26000, -25000, -24200, -24000, -23000, -15000, -5000, -1000, 0, 500, 1000, 5000]) \
+            + rng.choice([0, 350, 800, rng.randint(0, 1000)])
     ops.append([m, "browse", 1, 0])
     if nh >= 3:
         if rng.random() < 0.6:  # a host that did not overhear anything
@@ -1029,10 +1034,12 @@ def monitors(tr, endT, cfg=CFG):
                     continue
                 e_s = eff_ttl(ttl, cfg) // 1000
                 for second in (False, True):
-                    # the browser existed when the record reached 75 % of its life: windows around 75 % / 85 % (10 s + 999 ms
-                    # early: "avoid churn" keeps a schedule within 10 s; 25 s late: rate limit / start-up phase); it started
-                    # later: its 3rd / 4th start-up question (the record is stale by then and is not listed)
-                    if tb <= x[0] + cfg["refresh1"] * e_s:
+                    # the browser had finished its start-up phase before the earliest possible schedule of the 75 % query
+                    # (75 % - 10 s): windows around 75 % / 85 % (10 s + 999 ms early: "avoid churn" keeps a schedule within 10 s
+                    # of the new 75 % point — on either side; 30 s late: kept schedule + two passes each at most 10 s late);
+                    # it started later, or so shortly before that the 75 % point falls into its start-up phase (no refresh pass
+                    # runs then): its 3rd / 4th start-up question (the record is stale by then and is not listed)
+                    if tb + cfg["qHi"] + cfg["qOff"][3] + cfg["refreshEarly"] <= x[0] + cfg["refresh1"] * e_s:
                         due = x[0] + (cfg["refresh2"] if second else cfg["refresh1"]) * e_s
                         a, hi = due - cfg["refreshEarly"] - cfg["dupQ"], due + cfg["refreshWin"]
                     else:
